@@ -874,6 +874,14 @@ namespace BitSerializer::Convert::Utf
 		EndFile
 	};
 
+#ifdef BITSERIALIZER_VERIF
+	namespace Verif
+	{
+		// Verification knob (off by default): upper limit for the effective chunk size of CEncodedStreamReader (multiple of 4, >= 32).
+		inline size_t encodedChunkSize = 0x10000;
+	}
+#endif
+
 	/// <summary>
 	/// Allows to read streams in various UTF encodings with automatic detection.
 	/// </summary>
@@ -1004,7 +1012,11 @@ namespace BitSerializer::Convert::Utf
 		UtfEncodingErrorPolicy mEncodingErrorPolicy;
 		const TTargetCharType* mErrorMark;
 		char mEncodedBuffer[ChunkSize]{};
+#ifdef BITSERIALIZER_VERIF
+		char* const mEndBufferPtr = mEncodedBuffer + (Verif::encodedChunkSize >= 32 && Verif::encodedChunkSize % 4 == 0 && Verif::encodedChunkSize < ChunkSize ? Verif::encodedChunkSize : ChunkSize);
+#else
 		char* const mEndBufferPtr = mEncodedBuffer + ChunkSize;
+#endif
 		char* mStartDataPtr = mEncodedBuffer;
 		char* mEndDataPtr = mEncodedBuffer;
 	};
